@@ -13,6 +13,48 @@ REALS_AXIOMS = [
 ]
 
 PROPS = {
+    "C10": dict(
+        prop_file="Properties/C10.v",
+        check_module="C10Check",
+        theorems={
+            "C10_decode_encode": [],
+            "C10_wf_check_sound": [],
+            "C10_wf_check_gen_sound": [],
+            "C10_trace_complete_check_sound": [],
+            "C10_span_table_vs_vm": [],
+            "C10_compile_wellformed_partial": [],
+            "C10_compile_wellformed_partial_strong": [],
+            "C10_A23_legacy_window_refuted": [],
+            "C10_A24_repaired": [],
+        },
+        n_quick=320, n_thorough=4000,
+        gates=["obs.ok", "obs.panic", "obs.err.EInvalidJump", "obs.err.EDuplicateName", "obs.err.EEmptyVariable",
+               "obs.err.ERecursionLimitReached", "card.closure.nested", "card.foreach", "card.repeat", "card.while",
+               "card.array", "import.super", "import.module", "import.std", "main.not_first", "module.submodules",
+               "str.len>252", "str.unicode", "disasm.compared", "globals.17+", "corpus.a23", "corpus.a24", "corpus.huge_upvalues",
+               "corpus.globals17", "obs.err.ETooManyLocals", "obs.err.EBadImport", "obs.err.EAmbigousImport", "obs.err.ENoMain",
+               "obs.err.EDuplicateModule", "obs.err.EBadFunctionName", "obs.err.ESuperLimitReached"],
+        rule="random modules (all 43 card kinds, nesting depth <= 4 (6), 0-4 functions per module, submodule trees of "
+             "depth <= 3 with function / module / std / super imports, closures with upvalues, globals and locals, "
+             "string literals up to 1000 bytes, planted faults: bad names, bad imports, empty variables, missing main, "
+             "duplicate names, too many `super.`, > 255 locals, > 255 upvalues) compiled by the crate inside catch_unwind "
+             "with recursion limits 0..4 and 64; the model's compile must return the same bytecode, data, sorted labels, "
+             "variables (ids, names) and sorted trace, or the same error variant + fields + location, or Panic; wf_check "
+             "(proved sound) is run on the crate's output; non-trivial = module with >= 3 cards; distinct = distinct case term",
+        trusted_base=COMMON_TB + [
+            "modelled, not verified: compiler.rs, compiler/module.rs (into_ir_stream .. is_name_valid), function_ir.rs, "
+            "instruction.rs, bytecode.rs, compiled_program.rs; stdlib.rs enters as the generated term StdlibGen.std_module "
+            "(printed by the harness from cao_lang::stdlib::standard_library() on every run); the instruction table "
+            "CompilerGen.gen_span_table is parsed from instruction.rs on every run and compared with Bytecode.span_table",
+            "operand widths of the decoder are the VM's decode_value::<T> calls, transcribed by hand (vm.rs, vm/instr_execution.rs)",
+            "labels / variables / trace are compared as key-sorted association lists; slot order of the hash tables is not modelled"],
+        assumptions=[
+            "function names are ASCII (is_name_valid uses the Unicode-aware char::is_alphanumeric); other cases are reported as code 3",
+            "programs with more than 16 distinct globals are generated unless VERIF_C10_MANY_GLOBALS=0 (before the fix of "
+            "HandleTable::entry, A-5, the 17th global made compile hang; a hang is observed through the harness watchdog, exit code 42)",
+            "bytecode shorter than 2^31 bytes, fewer than 2^32 cards per function",
+        ],
+    ),
     "C14": dict(
         prop_file="Properties/C14.v",
         check_module="C14Check",
@@ -137,11 +179,11 @@ PROPS = {
                 "C19_cmp_obj_obj", "C19_cmp_str_by_len", "C19_signed_zero_hash_refuted", "C19_nan_not_reflexive",
                 "C19_nan_key_eq_hash_refuted", "C19_eq_trans_nan_refuted", "C19_fn_not_reflexive_legacy",
                 "C19_fn_key_eq_hash_legacy_refuted", "C19_eq_trans_legacy_refuted", "C19_fn_key_repaired",
-                "C19_coherentb_correct")] +
+                "C19_coherentb_correct", "C19_cmp_int_real_exact")] +
             # statements about real numbers (Flocq B2R / Rcompare): the axioms of Coq's Reals library.
             [(t, REALS_AXIOMS) for t in (
-                "C19_cmp_real_real_numeric", "C19_eq_real_real_numeric", "C19_cmp_mixed_partial",
-                "C19_cmp_mixed_refuted", "C19_oracle_Z_cmp_sf_correct")]),
+                "C19_cmp_real_real_numeric", "C19_eq_real_real_numeric", "C19_cmp_mixed", "C19_cmp_mixed_any",
+                "C19_cmp_mixed_legacy_refuted", "C19_oracle_Z_cmp_sf_correct")]),
         n_quick=1500, n_thorough=12000,
         gates=["pair", "triple", "eq.true.tables_built_differently", "table_table.permuted", "table.depth>=3",
                "mixed.int_real", "mixed.int_beyond_2^53", "zero_vs_negzero", "has_nan", "has_nan_key",
@@ -273,9 +315,9 @@ PROPS = {
         prop_file="Properties/C02.v",
         check_module="C02Check",
         theorems={t: [] for t in ["C02_gc_preserves_reachable", "C02_mark_sound", "C02_mark_terminates"]},
-        n_quick=260, n_thorough=3000,
+        n_quick=300, n_thorough=3000,
         gates=["sched=every", "sched=single", "sched=subset", "gc_case", "prog=closures", "prog=stdlib_object_keys",
-               "prog=inline_closure"],
+               "prog=inline_closure", "prog=overwrite_equal_keys"],
         rule="for each program of the library (see C05, plus key functions returning fresh objects): a baseline run, "
              "then runs with a collection forced at every allocation, at each single allocation index (quick: all "
              "when <= 16 allocations, else 16 sampled; thorough: all) and at random subsets; freed objects are "
@@ -329,7 +371,7 @@ PROPS = {
     ),
     "C03": dict(
         prop_file="Properties/C03.v",
-        check_module="VmCheck",
+        check_module="C03Check",
         theorems={
             "C03_budget_bound": [],
             "C03_run_total": [],
@@ -346,10 +388,12 @@ PROPS = {
                "corpus.infinite_recursion"],
         rule="the VM stream (tools/props.py 'VM'): compiled corpus and random programs incl. While(1), unbounded "
              "recursion, re-entrant natives and std.*_by_key with looping key functions, each run with budgets "
-             "{20000, need-1, need, need+1, random < need, 1, sometimes 0} (need = least budget without Timeout, by "
-             "bisection); observed: outcome, globals, host log, stack shape and Vm::remaining_iters after the run; "
-             "the model's remaining budget must equal the implementation's, so dispatched = N - remaining is compared "
-             "exactly; non-trivial = at least one run completes or more than 3 runs; distinct = distinct case term",
+             "{20000, need-1, need, need+1, 2*need, random < need, 1, 2, 3, 10^4, sometimes 0} (need = least budget "
+             "without Timeout, by bisection); observed: outcome, globals, host log, stack shape and Vm::remaining_iters "
+             "after the run; code 1: the model's remaining budget must equal the implementation's (dispatched = N - "
+             "remaining compared exactly); code 2 (oracle on the observations alone): remaining <= N, Timeout -> "
+             "remaining = 0, Ok -> remaining >= 1, and all runs of a program that end with remaining >= 1 agree on "
+             "outcome, trace, globals, log, stack shape and number of dispatched instructions; non-trivial = at least one run completes or more than 3 runs; distinct = distinct case term",
         trusted_base=COMMON_TB + [
             "modelled, not verified: vm.rs (_run, run, run_function), vm/instr_execution.rs, stdlib.rs natives, "
             "traits.rs; no GC in the model (1 GiB limit in the harness)",
